@@ -10,6 +10,7 @@ A card is a list of items:
 Every random choice comes from the rng passed in.
 """
 import random
+import re
 
 PARTICLES_COMMON = ["n", "p", "e"]
 ALL_PARTICLES = list("npe|quvfhl+-xyo!<>g/zk%^b_~cw@dtsa*?#")
@@ -176,6 +177,14 @@ def gen_numlist(rng, n, positive=True, ints=False, shortcuts=True, allow_jump=Tr
     return items, vals
 
 
+def parse_real_ok(s):
+    try:
+        parse_real(s)
+        return True
+    except ValueError:
+        return False
+
+
 def parse_real(s):
     import re
     try:
@@ -261,6 +270,8 @@ def gen_problem(rng, opts=None):
                     params.append([T("imp:" + p), EQ, T(fmt_imp(imp[p]))])
         if rng.random() < 0.4:
             v = fmt_real(rng, positive=True, style=rng.choice(["fixed", "int", "sci"]))
+            if o.get("edge_volumes") and rng.random() < 0.25:
+                v = rng.choice(["0", "0", "0.0", "4.2e-12", "6.5e-11"])     # legal: a volume of zero, microscopic volumes
             vols[c] = v
             if place["vol"] == "cell":
                 params.append([T("vol"), EQ, T(v)])
@@ -311,6 +322,23 @@ def gen_problem(rng, opts=None):
                                allow_jump=False, multiply=bool(o.get("multiply_surfaces")))
         card += it
         sconst[s] = vals
+        gen_idx = []
+        k = 0
+        for tok in it:
+            m_ = re.match(r"^(\d*)(i|ilog)$", tok[1].lower())
+            m_r = re.match(r"^(\d*)(r|j)$", tok[1].lower())
+            if m_:
+                cnt = int(m_.group(1) or 1)
+                gen_idx += list(range(k, k + cnt))
+                k += cnt
+            elif m_r:
+                k += int(m_r.group(1) or 1)
+            elif tok[1].lower().endswith("m") and parse_real_ok(tok[1][:-1]):
+                k += 1
+            else:
+                k += 1
+        if gen_idx:
+            P["meta"].setdefault("surface_interpolated", {})[s] = gen_idx
         surfaces.append(card)
     P["surfaces"] = surfaces
     P["meta"]["surface_constants"] = sconst
@@ -334,11 +362,23 @@ def gen_problem(rng, opts=None):
     # (meta only: no random draw, the generated problems are unchanged)
     P["meta"]["material_zaids"] = mat_zaids
     P["meta"]["material_laws"] = mat_laws
+    tr_rot = {}
     for t in tr_nums:
         card = [T(("*" if rng.random() < 0.2 else "") + "tr%d" % t)]
-        n = rng.choice([3, 3, 12])
-        it, _ = gen_numlist(rng, n, positive=False, shortcuts=False)
+        if o.get("tr_forms"):
+            # every form MCNP knows: 0, 3, 5, 6 or 9 entries of the rotation matrix; sometimes the identity-like
+            # matrix of a 90 degree turn with its 6.123e-17 next to a repeated displacement '0 2r'
+            n = rng.choice([3, 3, 6, 8, 9, 12])
+            if n == 12 and o.get("tr_tiny") and rng.random() < 0.4:
+                it = [T(x) for x in ["0", "2r", "6.123e-17", "1", "0", "-1", "6.123e-17", "0", "0", "0", "1"]]
+            else:
+                it, _ = gen_numlist(rng, n, positive=False, shortcuts=False)
+        else:
+            n = rng.choice([3, 3, 12])
+            it, _ = gen_numlist(rng, n, positive=False, shortcuts=False)
+        tr_rot[t] = n - 3
         data.append(card + it)
+    P["meta"]["tr_rotation_entries"] = tr_rot
     ncell_entries = len(cell_nums)
     if place["imp"] == "data" and joint_imp:
         vals = [imps[c][particles[0]] for c in cell_nums]
@@ -347,7 +387,35 @@ def gen_problem(rng, opts=None):
         for p in particles:
             vals = [imps[c][p] for c in cell_nums]
             data.append([T("imp:" + p)] + compress(rng, vals, o["shortcuts"]))
-    if place["vol"] == "data" and vols:
+    if place["vol"] == "data" and vols and o.get("edge_volumes") and rng.random() < 0.4:
+        # a data-block VOL card of zeros, or of microscopic volumes with repeat shortcuts next to other tiny values
+        # (the list of such a card is rebuilt on every write)
+        if rng.random() < 0.3:
+            vals = ["0" for c in cell_nums]
+            for c in cell_nums:
+                vols[c] = "0"
+            data.append([T("vol")] + [T(v) for v in vals[:-1]] + [T(rng.choice(["0", "j"]) if len(vals) > 1 else "0")])
+            if data[-1][-1][1] == "j":
+                vols.pop(cell_nums[-1])
+        else:
+            tiny = [4.2e-12, 6.5e-11, 3.3e-10, 8.0e-13, 2.0e-10]
+            vals = []
+            for c in cell_nums:
+                vals.append(vals[-1] if vals and rng.random() < 0.5 else rng.choice(tiny))
+            for c, v in zip(cell_nums, vals):
+                vols[c] = "%g" % v
+            items = []
+            k = 0
+            while k < len(vals):
+                j = k
+                while j + 1 < len(vals) and vals[j + 1] == vals[k]:
+                    j += 1
+                items.append(T("%g" % vals[k]))
+                if j > k:
+                    items.append(T("%dr" % (j - k)))
+                k = j + 1
+            data.append([T("vol")] + items)
+    elif place["vol"] == "data" and vols:
         card = [T("vol")]
         for c in cell_nums:
             card.append(T(vols[c]) if c in vols else T("j"))
